@@ -506,3 +506,16 @@ func snakeToCamel(s string) string {
 	}
 	return strings.Join(parts, "")
 }
+
+// Value generates a populated element suitable for the given field (exported for the patch workloads).
+func (g *ResGen) Value(fd protoreflect.FieldDescriptor, depth int) protoreflect.Message {
+	return g.value(fd, fd.Message(), depth)
+}
+
+// ValueOf generates a populated element of the given message type.
+func (g *ResGen) ValueOf(md protoreflect.MessageDescriptor, depth int) protoreflect.Message {
+	return g.value(nil, md, depth)
+}
+
+// NewMessage creates an empty message of the given type.
+func NewMessage(md protoreflect.MessageDescriptor) protoreflect.Message { return newMessage(md) }
